@@ -133,7 +133,24 @@ class SymDate(ADT):
         return self.t / 86400
 
     def change_scale(self, scale):
-        return SymDate(self.t, scale)
+        return SymDate(self.t, scale if isinstance(scale, str) else scale.name)
+
+    # clock readings in the date's own scale: for the uniform scales they are the instant shifted by the scale's constant offset; for UTC / UT1 / TDB the offset
+    # depends on tables, and the reading is an uninterpreted function of the instant (code that goes through it cannot be proved to measure elapsed time)
+    _UNIFORM = {"TAI": 0, "TT": 32.184, "GPS": -19}
+
+    def _reading(self):
+        off = self._UNIFORM.get(self.scale)
+        if off is None:
+            return sym.uf(f"obs_d_{self.scale}", self.t), sym.uf(f"obs_s_{self.scale}", self.t)
+        x = self.t + sym.SReal(sym.rv(sym.to_fraction(off)))
+        d = sym.floor(x / 86400)
+        return d, x - 86400 * d
+
+    d = property(lambda self: self._reading()[0])
+    s = property(lambda self: self._reading()[1])
+    mjd = property(lambda self: (self._reading()[0] * 86400 + self._reading()[1]) / 86400)
+    jd = property(lambda self: self.mjd + sym.SReal(sym.rv(sym.to_fraction(2400000.5))))
 
     def __pv_havoc__(self, name):
         return SymDate(sym.SReal(sym.cur().fresh(f"h_{name}")), self.scale)
